@@ -165,7 +165,7 @@ def wfFs : FS := [
   (["t".toList, "src".toList, "main.tf".toList], .file 0o644 0 "m".toList)]
 
 def wfSrc : Str := "/t/src".toList
-def wfOn : PackOpts := ⟨false, true, []⟩
+def wfOn : PackOpts := { dereference := false, applyIgnore := true, allow := [] }
 
 /-- the rule set `Pack` loads there: the three built-in rules, then the three of the file (marked by
 the later `!` line) -/
@@ -202,7 +202,7 @@ def wfFsDeref : FS := [
   (["t".toList, "src".toList, ".terraformignore".toList], .file 0o644 0 "ext/k\n".toList),
   (["t".toList, "src".toList, "ext".toList], .link "/t/out".toList)]
 
-def wfDerefOn : PackOpts := ⟨true, true, []⟩
+def wfDerefOn : PackOpts := { dereference := true, applyIgnore := true, allow := [] }
 def wfRulesDeref : List Rule :=
   [⟨"**/.terraform/**".toList, false, true⟩, ⟨"**/.terraform/modules/**".toList, true, false⟩,
    ⟨"**/.git/**".toList, false, false⟩, ⟨"**/ext/k".toList, false, false⟩]
@@ -357,8 +357,8 @@ of `C02_pack_preorder` (name-sorted pre-order) filtered by `wfShipB` ("own path 
 ancestor is skipped", a function of the entry's relative path, its being a directory, and the rules),
 in the same order, each remaining entry unchanged. -/
 theorem C03_pack_filter (h : C02Scope fs cwd o src)
-    (hfuel : (pack fs cwd ⟨o.dereference, true, o.allow⟩ src).2 ≠ .diverged) :
-    (pack fs cwd ⟨o.dereference, true, o.allow⟩ src).1.entries =
+    (hfuel : (pack fs cwd { o with applyIgnore := true } src).2 ≠ .diverged) :
+    (pack fs cwd { o with applyIgnore := true } src).1.entries =
       (pack fs cwd o src).1.entries.filter
         (fun e => wfShipB (loadIgnore fs cwd src) (entryRel e.name) e.isDir) :=
   wf_pack_filter h.ctx h.noIgnore h.fuel hfuel
@@ -430,11 +430,11 @@ example :
 
 /-- `C03_pack_filter` is not vacuous: the example tree of C02 is in its scope -/
 example :
-    (pack c02fs "/".toList ⟨c02opts.dereference, true, c02opts.allow⟩ c02src).1.entries =
+    (pack c02fs "/".toList { c02opts with applyIgnore := true } c02src).1.entries =
       (pack c02fs "/".toList c02opts c02src).1.entries.filter
         (fun e => wfShipB (loadIgnore c02fs "/".toList c02src) (entryRel e.name) e.isDir) :=
   C03_pack_filter c02fs "/".toList c02opts c02src c02_scope
-    (C03_fuel_sufficient c02fs "/".toList ⟨c02opts.dereference, true, c02opts.allow⟩ c02src rfl rfl
+    (C03_fuel_sufficient c02fs "/".toList { c02opts with applyIgnore := true } c02src rfl rfl
       c02_scope.srcClean c02_scope.srcPhysical c02_scope.names c02_scope.depth
       (fun r t hr _ => c02_scope.linksAccepted r t (rt_srcNode_link.mpr hr)) (by decide))
 
